@@ -96,7 +96,7 @@ INFO = {
         'backup actor (real backup_container, in-process rsync stub with per-file/per-chunk yield points) scheduled '
         'against writers and one pack-writer; non-trivial = a pack-writer COMMIT or loose unlink fell between the first and '
         'last copy step; distinct = distinct schedule digest',
-        400,
+        1500,
     ),
     'C16': _p(
         'exploration',
